@@ -60,6 +60,11 @@ def run_property(pid, tier, seed):
 
     ctx = getattr(eng, "fn_ctx", {})
     by_fn_failed = {}
+    canaries = [o for o in eng.obligations if o.kind == "canary"]
+    for o in canaries:
+        if o.result == "valid":
+            faults.append(f"canary proved: assumptions on a path of {o.fn} are inconsistent ({o.name})")
+    eng.obligations = [o for o in eng.obligations if o.kind != "canary"]
     for ob in eng.obligations:
         if ob.result == "valid":
             continue
@@ -131,6 +136,7 @@ def run_property(pid, tier, seed):
         "undecided": [o.name for o in undecided],
         "known_findings": known_lines,
         "canary": canary,
+        "path_canaries": {"checked": len(canaries), "refuted_or_unknown": sum(1 for o in canaries if o.result != "valid")},
         "explanation": getattr(mod, "EXPLANATION", ""),
     }
     if bounded:
